@@ -858,3 +858,15 @@ CONTRACTS += [
              },
              raises={'PySmiCodegenError': True, 'PySmiError': True, 'PySmiSemanticError': True}),
 ]
+
+# caller-facing summary of genCode (its clauses are verified above, per option case)
+CONTRACTS.append(Contract(
+    id='intermediate.genCode', file=FILE, func='IntermediateCodeGen.genCode', serves=['C03'], trusted=True,
+    params={'self': SELF, 'ast': Any, 'symbolTable': Any, 'kwargs': Any},
+    returns=Tup(Obj('MibInfo', name=Str, identity=Any, imported=TupOf(Str), oids=SetOf(), revision=Any, oid=Any,
+                    enterprise=Any, compliance=SeqOf()), MapOf()),
+    assigns=PER_MODULE + ['self.textFilter', 'self.symbolTable'],
+    ensures={'a_summary_and_the_tree': 'implies(not raised, is_dict(result[1]))'},
+    raises={'PySmiCodegenError': True, 'PySmiError': True, 'PySmiSemanticError': True},
+    notes=['summary of intermediate.genCode[defaults|options]: returns the module summary and the intermediate tree '
+           'or raises a package error']))
